@@ -65,6 +65,16 @@ impl MemoryArea {
         self.length
     }
 
+    /// True if `address` lies inside this area. Unlike `start + length` this cannot overflow.
+    fn contains(&self, address: u64) -> bool {
+        address >= self.start && address - self.start < self.length
+    }
+
+    /// True if the `length` bytes starting at `address` all lie inside this area
+    fn contains_range(&self, address: u64, length: u64) -> bool {
+        self.contains(address) && length <= self.length - (address - self.start)
+    }
+
     pub fn to_string_ident(&self, i: usize) -> String {
         let mut s = String::new();
 
@@ -161,12 +171,12 @@ impl Axecutor {
             .iter()
             .find(|area| {
                 // Start address is in range of memory area
-                area.start <= address && address < area.start + area.length
+                area.contains(address)
             })
             .ok_or_else(|| self.collect_mem_error_hints(address, length, "Read".to_string()))?;
 
         // Make sure it's in range before doing the slice access below
-        if address + length > area.start + area.length {
+        if !area.contains_range(address, length) {
             return Err(self.collect_mem_error_hints(address, length, "Read".to_string()));
         }
 
@@ -240,7 +250,7 @@ impl Axecutor {
             .state
             .memory
             .iter()
-            .find(|area| area.start <= address && address < area.start + area.length)
+            .find(|area| area.contains(address))
             .ok_or_else(|| {
                 self.collect_mem_error_hints(address, 15, "Read executable".to_string())
             })?;
@@ -271,10 +281,7 @@ impl Axecutor {
     fn collect_mem_error_hints(&self, address: u64, length: u64, operation: String) -> AxError {
         // check if start or end address is within any of the memory areas
         for area in &self.state.memory {
-            if address >= area.start
-                && address < area.start + area.length
-                && address + length > area.start + area.length
-            {
+            if area.contains(address) && !area.contains_range(address, length) {
                 return AxError::from(format!(
                     "Memory {} of length {} at address {:#x} over end of memory area {} (start {:#x}, length {})",
                     operation.to_lowercase(),
@@ -290,8 +297,10 @@ impl Axecutor {
             }
         }
 
+        // The end of the access, saturating so that extreme lengths cannot overflow
+        let end = address.saturating_add(length);
         for area in &self.state.memory {
-            if address + length > area.start && address + length <= area.start + area.length {
+            if end > area.start && end - area.start <= area.length {
                 return AxError::from(format!(
                     "Memory {} of length {} at address {:#x} before start of memory area {} (start {:#x}, length {})",
                     operation.to_lowercase(),
@@ -381,7 +390,7 @@ impl Axecutor {
             .state
             .memory
             .iter_mut()
-            .find(|area| area.start <= address && address < area.start + area.length)
+            .find(|area| area.contains(address))
         {
             Some(area) => area,
             None => {
@@ -394,7 +403,7 @@ impl Axecutor {
         };
 
         // Range check before doing the copy_from_slice below
-        if address + data.len() as u64 > area.start + area.length {
+        if !area.contains_range(address, data.len() as u64) {
             return Err(self.collect_mem_error_hints(
                 address,
                 data.len() as u64,
